@@ -10,6 +10,7 @@ import Driver.TypeIdCmd
 import Driver.DiscCmd
 import Driver.TypedCmd
 import Driver.SchemaCmd
+import Driver.ClientCmd
 
 namespace Aldrin.Driver
 open Aldrin
@@ -168,6 +169,7 @@ structure DState where
   broker : BState := {}
   disc : Option Aldrin.Disc.Disc := none
   tenv : Aldrin.Typed.Env := []
+  clients : CStates := []
   deriving Inhabited
 
 def step (ds : DState) (line : String) : DState × String :=
@@ -188,6 +190,8 @@ def step (ds : DState) (line : String) : DState × String :=
           | some (d, out) => ({ ds with disc := d }, out)
           | none => match typedCmd ds.tenv cmd args with
           | some (e, out) => ({ ds with tenv := e }, out)
+          | none => match clientCmd ds.clients cmd args with
+          | some (c, out) => ({ ds with clients := c }, out)
           | none => match brokerCmd ds.broker cmd args with
             | some (b, out) => ({ ds with broker := b }, out)
             | none => (ds, "bad-op")
